@@ -202,73 +202,64 @@ def cutPoints (start stop : Nat) : List Nat → List Nat
     else if stop > m then m :: cutPoints m stop ms
     else []
 
-/-- build the chain for one note from its cut points; returns the updated list.
-    `orig` is the note as it was before the loop (pitch, voice, staff are copied from it). -/
-def chainLoop (qd : List (Int × Nat)) (orig : Note) (noteEnd : Nat) :
-    List Nat → Nat → List Note → List Note × Nat
-  | [], curKey, ns => (ns, curKey)
-  | c :: cs, curKey, ns =>
-    match ns.find? (·.key = curKey) with
-    | none => (ns, curKey)
-    | some cur =>
-      let newKey := freshKey ns
-      let symCur := estimateI (c - cur.start) (quarterAt qd cur.start)
-      let symNext := estimateI (noteEnd - c) (quarterAt qd c)
-      let newId := cur.id.bind makeTiedNoteId
-      let new : Note := { key := newKey, id := newId, start := c, stop := noteEnd, pitch := orig.pitch,
-                          voice := orig.voice, staff := orig.staff, sym := some symNext,
-                          tiePrev := some curKey, tieNext := none, slurStops := [] }
-      let ns := updateNote curKey (fun n => { n with stop := c, slurStops := [], sym := some symCur,
-                                                     tieNext := some newKey }) ns
-      chainLoop qd orig noteEnd cs newKey (insertNote new ns)
+/-- bounds of the pieces of `[start, stop)` cut at `cuts` -/
+def pieceBounds (start stop : Nat) (cuts : List Nat) : List (Nat × Nat) := pairs (start :: cuts ++ [stop])
 
-/-- stage 1 of `tie_notes` for the note with key `k` (repaired: the tie to the following note is kept) -/
+/-- The tie chain that replaces `orig`, from the pieces `(start, stop, _sym_dur)`.
+    Piece 0 keeps the key, id and `tie_prev` of `orig`; piece `i+1` gets key `base + i`, the id derived from its
+    predecessor's, and `tie_prev` = its predecessor.  Every piece copies pitch, voice and staff of `orig`.
+    The last piece takes over the stopping slurs and the tie to the following note (repair C11-3). -/
+def chainFrom (orig : Note) (base : Nat) :
+    Nat → Option Nat → Nat → Option String → List (Nat × Nat × Option Est) → List Note
+  | _, _, _, _, [] => []
+  | _, prev, ck, cid, [(l, r, sy)] =>
+    [{ orig with key := ck, id := cid, start := l, stop := r, sym := sy, tiePrev := prev,
+                 tieNext := orig.tieNext, slurStops := orig.slurStops }]
+  | i, prev, ck, cid, (l, r, sy) :: p :: rest =>
+    { orig with key := ck, id := cid, start := l, stop := r, sym := sy, tiePrev := prev,
+                tieNext := some (base + i), slurStops := [] }
+      :: chainFrom orig base (i + 1) (some ck) (base + i) (cid.bind makeTiedNoteId) (p :: rest)
+
+def mkChain (orig : Note) (base : Nat) (pieces : List (Nat × Nat × Option Est)) : List Note :=
+  chainFrom orig base 0 orig.tiePrev orig.key orig.id pieces
+
+/-- the note that `orig` was tied to now has the last piece as its `tie_prev` -/
+def relinkNext (orig : Note) (chain : List Note) (ns : List Note) : List Note :=
+  match orig.tieNext, chain.getLast? with
+  | some t, some last => updateNote t (fun n => { n with tiePrev := some last.key }) ns
+  | _, _ => ns
+
+/-- stage 1 of `tie_notes`: the first piece stays where `orig` was, the new notes are added in order -/
+def installChain (ns : List Note) (orig : Note) (chain : List Note) : List Note :=
+  match chain with
+  | [] => ns
+  | first :: more =>
+    let ns := ns.map fun n => if n.key = orig.key then first else n
+    relinkNext orig chain (more.foldl (fun acc n => insertNote n acc) ns)
+
+/-- stage 1 of `tie_notes` for the note with key `k` -/
 def tieOne (qd : List (Int × Nat)) (mstarts : List Nat) (ns : List Note) (k : Nat) : List Note :=
   match ns.find? (·.key = k) with
   | none => ns
   | some note =>
-    let cuts := cutPoints note.start note.stop mstarts
-    match cuts with
+    match cutPoints note.start note.stop mstarts with
     | [] => ns
-    | _ :: _ =>
-      let (ns, lastKey) := chainLoop qd note note.stop cuts k ns
-      -- slurs that stopped on the note now stop on the last piece; so does the tie to the next note
-      let ns := updateNote lastKey (fun n => { n with slurStops := n.slurStops ++ note.slurStops,
-                                                      tieNext := note.tieNext }) ns
-      match note.tieNext with
-      | some t => updateNote t (fun n => { n with tiePrev := some lastKey }) ns
-      | none => ns
+    | c :: cs =>
+      let bounds := pieceBounds note.start note.stop (c :: cs)
+      let pieces := bounds.map fun b => (b.1, b.2, some (estimateI (b.2 - b.1) (quarterAt qd b.1)))
+      installChain ns note (mkChain note (freshKey ns) pieces)
 
 def tieStage1 (qd : List (Int × Nat)) (mstarts : List Nat) (ns : List Note) : List Note :=
   (ns.map (·.key)).foldl (tieOne qd mstarts) ns
 
-/-- `split_note(part, note, splits)` (body without the two sanity assertions; repaired like stage 1) -/
+/-- `split_note(part, note, splits)` (body without the two sanity assertions): the note is removed and
+    re-added (it moves behind the other notes of its time point), then the further pieces are added -/
 def splitNote (ns : List Note) (k : Nat) (pieces : List Piece) : Option (List Note) :=
   match ns.find? (·.key = k), pieces with
-  | some note, (s0, e0, sd0) :: rest =>
-    -- part.remove(note); ... part.add(cur_note, start, end): the note moves to the end of its time point
-    let first : Note := { note with start := s0, stop := e0, sym := some sd0,
-                                    slurStops := if rest.isEmpty then note.slurStops else [] }
-    let ns0 := insertNote first (ns.filter (·.key ≠ k))
-    let rec go (cur : Nat) (curId : Option String) (ns : List Note) : List Piece → List Note × Nat
-      | [] => (ns, cur)
-      | (s, e, sd) :: more =>
-        let newKey := freshKey ns
-        let newId := curId.bind makeTiedNoteId
-        let new : Note := { key := newKey, id := newId, start := s, stop := e, pitch := note.pitch,
-                            voice := note.voice, staff := note.staff, sym := some sd,
-                            tiePrev := some cur, tieNext := none, slurStops := [] }
-        let ns := updateNote cur (fun n => { n with tieNext := some newKey }) ns
-        go newKey newId (insertNote new ns) more
-    let (ns1, lastKey) := go k note.id ns0 rest
-    let ns2 := updateNote lastKey (fun n => { n with tieNext := note.tieNext }) ns1
-    let ns3 := match note.tieNext with
-      | some t => updateNote t (fun n => { n with tiePrev := some lastKey }) ns2
-      | none => ns2
-    let ns4 := if lastKey ≠ k then
-        updateNote lastKey (fun n => { n with slurStops := n.slurStops ++ note.slurStops }) ns3
-      else ns3
-    some ns4
+  | some note, _ :: _ =>
+    let chain := mkChain note (freshKey ns) (pieces.map fun p => (p.1, p.2.1, some p.2.2))
+    let ns0 := ns.filter (·.key ≠ k)
+    some (relinkNext note chain (chain.foldl (fun acc n => insertNote n acc) ns0))
   | _, _ => none
 
 /-- stage 2 of `tie_notes` for one note: only when `note.symbolic_duration is None` -/
